@@ -98,6 +98,7 @@ class CoreMixin:
         self.consts = {}
         self.call_ord = {}
         self.unit_syms = set()
+        self.inferred_attrs = {}     # untyped (pure Python) attributes: sort inferred from the first value written
 
     # ---- fresh symbols
     def fresh(self, base, key):
@@ -180,6 +181,8 @@ class CoreMixin:
                 return spec_from_ctype(ct)
         if attr in self.global_attrs:
             return self.global_attrs[attr]
+        if attr in self.inferred_attrs:
+            return self.inferred_attrs[attr]
         return None
 
     def read_attr(self, st, obj, attr, spec):
